@@ -166,8 +166,40 @@ func c01Body(cfg c01Cfg, sc c01Scn, res *string) func(x *sched.Exec) {
 				x.Fail("C01|dropped-in-blocking-mode", "%d span(s) counted as dropped in blocking mode", dropped)
 			}
 		}
+		var tp *TracerProvider // provider-level ops (RE / PF / PS) go through a real TracerProvider and real spans
+		provider := func() *TracerProvider {
+			if tp == nil {
+				tp = NewTracerProvider(WithSpanProcessor(bsp), WithSampler(AlwaysSample()))
+			}
+			return tp
+		}
+		for _, ops := range append(append([][]string{}, sc.threads...), sc.tail) {
+			for _, op := range ops {
+				if strings.HasPrefix(op, "RE:") || op == "PF" || op == "PS" {
+					provider()
+				}
+			}
+		}
 		runOp := func(op string) {
 			switch {
+			case strings.HasPrefix(op, "RE:"):
+				_, sp := tp.Tracer("t").Start(context.Background(), op[3:])
+				sp.End()
+				endedAt[op[3:]] = x.Step()
+			case op == "PF":
+				at := x.Step()
+				checkFlush("ForceFlush", at, tp.ForceFlush(context.Background()))
+			case op == "PS":
+				at := x.Step()
+				if firstShutdownAt < 0 {
+					firstShutdownAt = at
+				}
+				shutdownCalls++
+				err := tp.Shutdown(context.Background())
+				checkFlush("Shutdown", at, err)
+				if err == nil {
+					e.closedOK = true
+				}
 			case strings.HasPrefix(op, "E:"), strings.HasPrefix(op, "U:"):
 				n := op[2:]
 				bsp.OnEnd(c01Span{name: n, sampled: op[0] == 'E'})
@@ -238,6 +270,7 @@ func c01Scenarios(thorough bool) []c01Scn {
 		{"S3", [][]string{{"E:s1", "E:s2"}, {"S"}}, nil},
 		{"S5", [][]string{{"E:s1", "E:s2", "Fc"}}, []string{"S"}},
 		{"S7", [][]string{{"E:s1", "U:u1", "E:s2"}, {"E:s3"}}, []string{"F", "S"}},
+		{"R1", [][]string{{"RE:s1", "RE:s2"}, {"PF"}}, []string{"PS"}}, // real provider, real spans
 	}
 	if thorough {
 		s = append(s,
@@ -267,6 +300,9 @@ func TestVerifC01(t *testing.T) {
 	var jobs []string
 	for _, sc := range scs {
 		for _, c := range cfgs {
+			if sc.name == "R1" && !(c.String() == "q2b1" || c.String() == "q1b1-blocking") {
+				continue // real spans have many more scheduling points: two configurations only
+			}
 			jobs = append(jobs, sc.name+"/"+c.String())
 		}
 	}
@@ -279,12 +315,15 @@ func TestVerifC01(t *testing.T) {
 					continue
 				}
 				p, e := 1, 1
+				if sc.name == "R1" {
+					e = 0
+				}
 				if thorough {
 					p, e = 2, 1
 					if c.q == 1 && !c.faults && !c.blocking && (sc.name == "S3" || sc.name == "S5") {
 						e = 2 // smallest configurations: one more environment deviation
 					}
-					if sc.name == "S8" || sc.name == "S2" || (c.blocking && (sc.name == "S1" || sc.name == "S4")) {
+					if sc.name == "R1" || sc.name == "S8" || sc.name == "S2" || (c.blocking && (sc.name == "S1" || sc.name == "S4")) {
 						p, e = 1, 1 // the largest drivers (3 spans + 2 flushes, blocking producers): measured > 40 CPU-minutes at (2,1)
 					}
 				}
